@@ -6,18 +6,8 @@ import os
 ROOT = os.path.dirname(os.path.dirname(os.path.abspath(__file__)))
 
 # property -> (technique, level text, level note, design ref)
-CLAIMED = {
-    "C05": (
-        "Coq refinement proof (ragged kernels refine nested-list selection) + vm_compute correspondence against /repo",
-        "Theorems in coq/Props/C05.v: for every container, every index expression and every finite program of "
-        "selections the model of the kernels returns exactly the nested-list selection and a well-formed container; "
-        "the hand-written model is tied to /repo on every run by running generated programs on both and comparing "
-        "every cell, shape, and raise/no-raise observation; a direct nested-list oracle searches for the failing input.",
-        "Trusted: Coq kernel + vm_compute, the hand-written model of multi_*tensor.py (checked observationally "
-        "each run), modelled torch indexing primitives, harness generators/printers. Aliasing and device placement "
-        "are not modelled.",
-        "DESIGN.md section 6 C05"),
-}
+CLAIMED = {k: (v['technique'], v['text'], v['note'], v['ref'])
+           for k, v in json.load(open(os.path.join(ROOT, 'tools', 'claims.json'))).items()}
 
 PENDING_REASON = "check not built yet in this round (design in DESIGN.md section 6); not claimed until it runs green"
 
